@@ -20,20 +20,44 @@ LIB_PREFIX = REPO + "/src/celpy"
 # --------------------------------------------------------------------------------------------------------------
 # programs: every thread owns its environment, program and bindings
 # --------------------------------------------------------------------------------------------------------------
-def make_job(runner, i):
-    """(program, bindings) number i for a runner class; distinct constants per job make foreign values recognisable"""
-    exprs = [
-        "(x + %d) > 0 ? [x, %d].map(v, v * 2) : []",
-        "has(m.k%d) || x > 1000 ? m.k%d + x : -1",
-        "[x, x + 1, %d].filter(v, v %% 2 == 0).size() + %d",
-        "string(x) + \"-%d-\" + string(size(s) + %d)",
-    ]
-    text = exprs[i % len(exprs)] % (100 + i, 100 + i)
-    env = celpy.Environment(runner_class=celx.RUNNERS[runner])
-    prog = env.program(env.compile(text))
-    bind = {"x": ct.IntType(5 + i), "s": ct.StringType("s" * (i + 1)),
+EXPRS = [
+    "(x + %d) > 0 ? [x, %d].map(v, v * 2) : []",
+    "has(m.k%d) || x > 1000 ? m.k%d + x : -1",
+    "[x, x + 1, %d].filter(v, v %% 2 == 0).size() + %d",
+    "string(x) + \"-%d-\" + string(size(s) + %d)",
+    "name.matches(\"^p%d-\") ? x + %d : -x",
+]
+
+
+def job_parts(job):
+    """job = (runner, expression kind, i): the text and the bindings (distinct constants make foreign values recognisable)"""
+    runner, k, i = job
+    text = EXPRS[k] % (100 + i, 100 + i)
+    bind = {"x": ct.IntType(5 + i), "s": ct.StringType("s" * (i + 1)), "name": ct.StringType("p%d-db" % (100 + i)),
             "m": ct.MapType({ct.StringType("k%d" % (100 + i)): ct.IntType(7 * (i + 1))})}
-    return text, prog, bind
+    return text, bind
+
+
+def lifecycle(job):
+    """what one thread does: its own environment, its own program, its own bindings, one evaluation"""
+    text, bind = job_parts(job)
+    env = celpy.Environment(runner_class=celx.RUNNERS[job[0]])
+    prog = env.program(env.compile(text))
+    return prog.evaluate(dict(bind))
+
+
+def evaluation_only(job):
+    """environment and program built beforehand (outside the scheduled region): only evaluate() is interleaved"""
+    text, bind = job_parts(job)
+    env = celpy.Environment(runner_class=celx.RUNNERS[job[0]])
+    prog = env.program(env.compile(text))
+    return lambda: prog.evaluate(dict(bind))
+
+
+def make_job(runner, i):
+    text, bind = job_parts((runner, i % 4, i))
+    env = celpy.Environment(runner_class=celx.RUNNERS[runner])
+    return text, env.program(env.compile(text)), bind
 
 
 def result_of(fn):
@@ -98,7 +122,7 @@ _LINE_LOADS = {}
 
 
 def line_loads(code):
-    """line -> names a line loads from its globals (LOAD_GLOBAL / LOAD_NAME)"""
+    """line -> (names the line loads from its globals, attribute names it loads)"""
     m = _LINE_LOADS.get(code)
     if m is None:
         m = {}
@@ -106,8 +130,12 @@ def line_loads(code):
         for ins in dis.get_instructions(code):
             if ins.starts_line is not None:
                 cur = ins.starts_line
-            if ins.opname in ("LOAD_GLOBAL", "LOAD_NAME") and cur is not None:
-                m.setdefault(cur, set()).add(ins.argval)
+            if cur is None:
+                continue
+            if ins.opname in ("LOAD_GLOBAL", "LOAD_NAME"):
+                m.setdefault(cur, (set(), set()))[0].add(ins.argval)
+            elif ins.opname in ("LOAD_ATTR", "LOAD_METHOD"):
+                m.setdefault(cur, (set(), set()))[1].add(ins.argval)
         _LINE_LOADS[code] = m
     return m
 
@@ -116,53 +144,76 @@ def interesting(code):
     return code.co_filename.startswith(LIB_PREFIX) or code.co_filename == "<string>"
 
 
-def record(body):
-    """run body() alone under a tracer -> (result, steps) with steps = [{'at': (file, line), 'r': [...], 'w': [...]}]"""
+def record(body, prepare=lambda: None):
+    """run body() alone under a tracer -> (result, steps); steps = [{'at': [file, line], 'g': global names loaded, 'a': attribute
+    names loaded, 'w': cells written}].  `body` is a factory: body() returns a fresh callable (the run is repeated: a coarse
+    pass finds WHICH namespaces change at all (snapshots every 25 lines), a fine pass snapshots only those after every line)."""
     dicts = tracked_dicts()
     by_id = {id(d): dn for dn, d in dicts.items()}
-    steps = []
-    state = {"snap": snapshot(dicts)}
 
-    def close_previous():
-        if steps:
-            now = snapshot(dicts)
-            steps[-1]["w"] = diff(state["snap"], now)
-            state["snap"] = now
+    def traced(snap_every, watch):
+        steps = []
+        state = {"snap": snapshot(watch), "n": 0, "changed": set()}
 
-    def local(frame, event, arg):
-        if event == "line":
-            close_previous()
-            code = frame.f_code
-            gname = by_id.get(id(frame.f_globals))
-            loads = sorted("%s:%s" % (gname, n) for n in line_loads(code).get(frame.f_lineno, ())) if gname else []
-            steps.append({"at": [code.co_filename.replace(LIB_PREFIX, "celpy"), frame.f_lineno], "r": loads, "w": []})
-        return local
+        def close(force=False):
+            state["n"] += 1
+            if steps and (force or state["n"] % snap_every == 0):
+                now = snapshot(watch)
+                d = diff(state["snap"], now)
+                steps[-1]["w"] = d
+                state["changed"].update(c.split(":")[0] for c in d)
+                state["snap"] = now
 
-    def glob(frame, event, arg):
-        return local if interesting(frame.f_code) else None
-    sys.settrace(glob)
-    try:
-        res = result_of(body)
-    finally:
-        sys.settrace(None)
-    close_previous()
+        def local(frame, event, arg):
+            if event == "line":
+                close()
+                code = frame.f_code
+                gname = by_id.get(id(frame.f_globals))
+                g, a = line_loads(code).get(frame.f_lineno, ((), ()))
+                steps.append({"at": [code.co_filename.replace(LIB_PREFIX, "celpy"), frame.f_lineno],
+                              "g": sorted("%s:%s" % (gname, n) for n in g) if gname else [], "a": sorted(a), "w": []})
+            return local
+
+        def glob(frame, event, arg):
+            return local if interesting(frame.f_code) else None
+        prepare()
+        steps, state["snap"] = [], snapshot(watch)
+        fn = body()
+        sys.settrace(glob)
+        try:
+            res = result_of(fn)
+        finally:
+            sys.settrace(None)
+        close(True)
+        return res, steps, state["changed"]
+    res, steps, changed = traced(25, dicts)
+    if changed:
+        # namespaces of objects created during the run are not in `dicts`; the changed ones are watched line by line
+        res, steps, _ = traced(1, {dn: dicts[dn] for dn in changed})
     return res, steps
 
 
 def shared_program(all_steps):
     """restrict reads to cells that some evaluation writes (everything else is constant environment) and drop the lines that
-    touch no such cell (stuttering steps); every kept step remembers its line index `i`"""
+    touch no such cell (stuttering steps); every kept step remembers its line index `i`.  An attribute load `.name` counts as
+    a read of every written cell called `name` (an over-approximation: the model may find interference the code does not have;
+    only a replayed schedule that changes a result is a violation)."""
     written = set()
     for steps in all_steps:
         for s in steps:
             written.update(s["w"])
+    by_attr = {}
+    for c in written:
+        by_attr.setdefault(c.split(":", 1)[1], []).append(c)
     progs = []
     for steps in all_steps:
         p = []
         for j, s in enumerate(steps):
-            r = [c for c in s["r"] if c in written]
+            r = [c for c in s["g"] if c in written]
+            for a in s["a"]:
+                r += by_attr.get(a, [])
             if r or s["w"]:
-                p.append({"i": j, "r": r, "w": list(s["w"])})
+                p.append({"i": j, "r": sorted(set(r)), "w": list(s["w"])})
         progs.append(p)
     return progs, sorted(written)
 
@@ -261,33 +312,45 @@ def tlc_interleavings(ctx, progs, name):
     return False, plan
 
 
+PAIRS_QUICK = [(("I", 0, 0), ("I", 1, 1)), (("C", 0, 0), ("C", 1, 1)), (("C", 2, 2), ("C", 3, 3)), (("I", 2, 2), ("C", 0, 3)),
+               (("C", 4, 1), ("C", 4, 2)), (("I", 4, 1), ("I", 4, 2)), (("C", 3, 4), ("I", 4, 5))]
+
+
 def run(ctx: Ctx) -> int:
     q = ctx.quick
     rng = random.Random(ctx.seed)
     total_sched = 0
-    for runner in ("I", "C"):
-        pairs = [(0, 1), (1, 2), (2, 3), (3, 0)] if q else [(a, b) for a in range(4) for b in range(4) if a != b]
-        jobs = {}
+    pairs = list(PAIRS_QUICK)
+    if not q:
+        pairs += [((r1, k1, 1), (r2, k2, 2)) for r1 in "IC" for r2 in "IC" for k1 in range(5) for k2 in range(5) if (r1, k1) <= (r2, k2)]
+    # two kinds of thread body: the whole lifecycle (environment, compile, program, evaluate) and evaluate() alone
+    for mode in ("lifecycle", "evaluate"):
         for a, b in pairs:
-            for i in (a, b):
-                if i not in jobs:
-                    jobs[i] = make_job(runner, i)
-        # solo results and recorded access programs
-        solo, rec = {}, {}
-        for i, (text, prog, bind) in jobs.items():
-            res, steps = record(lambda prog=prog, bind=bind: prog.evaluate(dict(bind)))
-            solo[i], rec[i] = res, steps
-            again = result_of(lambda: prog.evaluate(dict(bind)))
-            if again != res:
-                ctx.disagree("solo evaluation is not repeatable runner=%s" % runner, {"cel": text, "first": res, "second": again})
-        ctx.cov.setdefault("recorded_steps", {})[runner] = {str(i): len(s) for i, s in rec.items()}
-        for a, b in pairs:
-            progs, cells = shared_program([rec[a], rec[b]])
+            if mode == "evaluate" and a[0] != b[0] and q:
+                continue
+            if mode == "lifecycle":
+                factories = [lambda j=a: (lambda: lifecycle(j)), lambda j=b: (lambda: lifecycle(j))]
+            else:
+                pa, pb = evaluation_only(a), evaluation_only(b)
+                factories = [lambda: pa, lambda: pb]
+            texts = [job_parts(a)[0], job_parts(b)[0]]
+            # each job alone -- after the OTHER job has run, so that a write which restores what the job itself left behind
+            # last time still shows as a write
+            solo, rec = [None, None], [None, None]
+            for t in (0, 1):
+                solo[t], rec[t] = record(factories[t], prepare=lambda: result_of(factories[1 - t]()))
+                result_of(factories[1 - t]())
+                again = result_of(factories[t]())
+                if again != solo[t]:
+                    ctx.disagree("solo %s is not repeatable runner=%s" % (mode, (a, b)[t][0]), {"cel": texts[t], "first": solo[t], "second": again})
+            progs, cells = shared_program(rec)
             touching = [[s["i"] for s in p] for p in progs]
-            ctx.cov.setdefault("shared_cells_written", {})["%s:%d,%d" % (runner, a, b)] = cells[:12]
-            ok, witness = tlc_interleavings(ctx, progs, "interleavings runner=%s jobs=%d,%d" % (runner, a, b))
-            bodies = [lambda p=jobs[a]: p[1].evaluate(dict(p[2])), lambda p=jobs[b]: p[1].evaluate(dict(p[2]))]
-            n = [len(rec[a]), len(rec[b])]
+            tag = "%s %s%d/%s%d" % (mode, a[0], a[1], b[0], b[1])
+            ctx.cov.setdefault("recorded_lines", {})[tag] = [len(rec[0]), len(rec[1])]
+            if cells:
+                ctx.cov.setdefault("shared_cells_written", {})[tag] = cells[:12]
+            ok, witness = tlc_interleavings(ctx, progs, "interleavings " + tag)
+            n = [len(rec[0]), len(rec[1])]
             plans = []
             if witness:
                 last = witness[-1]
@@ -295,37 +358,35 @@ def run(ctx: Ctx) -> int:
             # every single-preemption schedule at the lines that touch shared cells (+-1), and a sample of all lines
             for first in (0, 1):
                 ks = set()
-                for j in touching[first]:
+                for j in touching[first][:40]:
                     ks.update((j, j + 1, j + 2))
-                stride = max(1, n[first] // (12 if q else 60))
+                stride = max(1, n[first] // (10 if q else 60))
                 ks.update(range(1, n[first], stride))
                 for k in sorted(x for x in ks if 0 < x < n[first]):
                     plans.append(("preempt thread %d after %d lines" % (first, k), [first] * k + [1 - first] * (n[1 - first] + 5) + [first] * (n[first] + 5)))
             if not q:
-                for _ in range(40):     # two preemptions
+                for _ in range(30):     # two preemptions
                     k1 = rng.randrange(1, n[0])
                     k2 = rng.randrange(1, n[1])
                     plans.append(("two preemptions", [0] * k1 + [1] * k2 + [0] * (n[0] + 5) + [1] * (n[1] + 5)))
             for what, plan in plans:
                 total_sched += 1
-                got = run_scheduled(bodies, plan)
-                for t, (g, i) in enumerate(zip(got, (a, b))):
-                    if g != solo[i]:
-                        foreign = "the other thread's value" if g == solo[(b, a)[t]] else "another outcome"
+                got = run_scheduled([factories[0](), factories[1]()], plan)
+                for t in (0, 1):
+                    if got[t] != solo[t]:
+                        foreign = "the other thread's value" if got[t] == solo[1 - t] else "another outcome"
                         at = ""
                         if what.startswith("preempt"):
-                            first = int(what.split()[2])
-                            k = int(what.split()[4])
-                            at = " at %s:%d" % tuple(rec[(a, b)[first]][k - 1]["at"])
-                        ctx.disagree("runner=%s evaluation returns %s under a %s schedule" % (runner, foreign, what.split(" thread")[0] if what.startswith("preempt") else what),
-                                     {"runner": runner, "jobs": [jobs[a][0], jobs[b][0]], "schedule": what + at, "thread": t, "alone": solo[i], "observed": g,
+                            first, k = int(what.split()[2]), int(what.split()[4])
+                            at = " at %s:%d" % tuple(rec[first][k - 1]["at"])
+                        ctx.disagree("%s: runner=%s (other thread %s) returns %s under a %s schedule" % (
+                                         mode, (a, b)[t][0], (a, b)[1 - t][0], foreign, what.split(" thread")[0] if what.startswith("preempt") else what),
+                                     {"mode": mode, "jobs": [[a[0], texts[0]], [b[0], texts[1]]], "schedule": what + at, "thread": t, "alone": solo[t], "observed": got[t],
                                       "tlc_says_interference_possible": not ok, "cells": cells[:8]})
                         break
-            if not ok and not any(v and v["case"].get("runner") == runner for v in ctx.violations) and not ctx.known_hits:
-                # TLC found an interfering interleaving of the recorded accesses but no replayed schedule changed a result:
-                # reported as information only (a VIOLATION needs a real differing result)
-                ctx.cov.setdefault("model_only_interference", []).append("%s:%d,%d" % (runner, a, b))
-        ctx.sample({"runner": runner, "job": jobs[0][0], "recorded_lines": len(rec[0]), "lines_touching_shared_cells": sum(1 for s in rec[0] if s["w"])})
+            if not ok:
+                ctx.cov.setdefault("model_found_interference", []).append(tag)
+        ctx.sample({"mode": mode, "jobs": [job_parts(pairs[0][0])[0], job_parts(pairs[0][1])[0]]})
     ctx.cov["traces_validated_against_impl"] += total_sched
     ctx.cov["evaluations"] += 2 * total_sched
     ctx.cov["schedules_replayed"] = total_sched
@@ -336,12 +397,13 @@ def run(ctx: Ctx) -> int:
             ctx.disagree("free-running stress: %s" % b[0], b[1])
         ctx.cov["stress_evaluations"] = 4 * 300 * 2
     ctx.assumptions += ["interleavings are at Python-line granularity inside the library (sys.settrace); finer interleavings only through free-running stress",
-                        "environments and programs are created before the scheduled region; concurrent creation is exercised by the stress run only",
-                        "shared cells = names of celpy / xlate module namespaces and class namespaces that a recorded evaluation writes"]
-    return ctx.finish(rule="each job's evaluation is recorded alone (every line's reads / writes of process-wide names); TLC explores ALL interleavings of two recorded "
-                           "programs for NoInterference; a deterministic scheduler then replays into real threads the TLC witness (if any), every single-preemption "
-                           "schedule at the lines touching shared cells and a sample of all lines (two preemptions and free-running stress in the thorough tier); "
-                           "every result is compared with the job's result alone. distinct = replayed schedules",
+                        "shared cells = names of celpy / xlate module namespaces, class namespaces and library objects bound in them (and containers bound "
+                        "directly to such names) that a recorded run writes; lark / re2 / pendulum internals are not instrumented"]
+    return ctx.finish(rule="each thread body (the whole lifecycle: own Environment, compile, program, evaluate -- and evaluate() alone) is recorded alone after the "
+                           "other job has run (every line's reads / writes of process-wide names); TLC explores ALL interleavings of the two recorded programs "
+                           "for NoInterference; a deterministic scheduler then replays into real threads the TLC witness (if any), every single-preemption "
+                           "schedule at the lines touching shared cells and a stride sample of all lines (two preemptions and free-running stress in the thorough "
+                           "tier); every result is compared with the job's result alone. Pairs cover same and different runner classes. distinct = replayed schedules",
                       extra={"distinct_nontrivial": total_sched})
 
 
